@@ -80,6 +80,19 @@ def check(ctx: Ctx) -> None:
             a = s.ast.args[1] if len(s.ast.args) > 1 else next((k.value for k in s.ast.keywords if k.arg == "path"), None)
             rep.ob("R19.3", "the socket file removed is the one the server listened on", p is not None and p == ctx.eff.paths(gi).of(a), node=u,
                    detail=f"unlink {p} vs listen {ctx.eff.paths(gi).of(a)}")
+    # whatever the server start-up calls on self must exist: fields used as callables are assigned by the constructor
+    for cls_ in (ux, prog.cls("control.server.TCPControlServer")):
+        gi_ = cls_.methods.get("_get_server_instance")
+        if gi_ is None:
+            continue
+        for n in ctx.distinct_sites(ctx.nodes(gi_, lambda n: n.op == "call" and isinstance(n.ast.func, ast.Attribute) and isinstance(n.ast.func.value, ast.Name) and n.ast.func.value.id == "self")):
+            nm = n.ast.func.attr
+            defined = prog.lookup(cls_, nm) is not None or prog.lookup_field(cls_, nm) is not None
+            rep.ob("R19.3", "the start-up routine only calls attributes the server object really has", defined, node=n, detail=f"self.{nm}")
+        for node in ast.walk(gi_.node):
+            if isinstance(node, ast.Attribute) and isinstance(node.value, ast.Name) and node.value.id == "self" and isinstance(node.ctx, ast.Load):
+                if prog.lookup(cls_, node.attr) is None and prog.lookup_field(cls_, node.attr) is None:
+                    rep.ob("R19.3", "the start-up routine only reads attributes the server object really has", False, func=gi_, construct=node)
     res = count_paths(ctx.an, fc, lambda n: n in unl or any(n.ast is u.ast for u in unl), interproc=False, started=True)
     rep.ob("R19.3", "the final callback always removes the socket file", res.get(("ret", None)) == frozenset({1}), func=fc, construct="unlink count", detail=str(sorted(res.get(("ret", None), []))))
     # ---------------------------------------------------------------- R19.4
